@@ -91,11 +91,37 @@ def _depth1(vars_):
     return out
 
 
+def _reuse():
+    """The same variable used twice in one program, once under an adverb or monad: a backend that works on its operand in place
+    shows in the second use."""
+    a = ["var", "a"]
+    out = []
+    for op in RS + ["-"]:
+        for node in (["scan", op, a], ["red", op, a]):
+            out.append(["dy", "+", a, node])
+            out.append(["dy", "-", node, a])
+            out.append(["dy", ",", node, a])
+            out.append(["dy", ",", a, ["dy", ",", node, a]])
+    for m in MONADS:
+        out.append(["dy", ",", ["mo", m, a], a])
+        out.append(["dy", "+", a, ["mo", m, a]])
+    for fn in EACH_FNS:
+        out.append(["dy", ",", ["each", fn, a], a])
+    for n in (I(1), I(-1), I(2)):
+        out.append(["dy", ",", ["dy", "#", ["lit", n], a], a])
+        out.append(["dy", ",", ["dy", "_", ["lit", n], a], a])
+    return out
+
+
 def cases(tier, seed):
     rng = random.Random(8000 + seed)
     B = _binds()
     classes = list(B)
     out = []
+    for t in _reuse():
+        for c in classes:
+            for v in B[c]:
+                out.append({"tree": t, "binds": {"a": v}})
     for t in _depth1(["a", "b"]):
         vs = E.vars_of(t)
         import itertools
